@@ -69,3 +69,20 @@ Proof.
   apply (frames_prefix v _ _ _ C (rest ++ skipn n (wh_sent ws ++ contents (eq_q (wh_e ws)))) HW HC).
   rewrite app_assoc, <- HI, Hin. symmetry. apply firstn_skipn.
 Qed.
+
+(* LIVENESS, composed: a reader that makes room between messages, given the whole stream of a writer
+   history, delivers every message that was sent, in order, and consumes the stream completely *)
+Theorem stream_delivers_all v wbuf woff wops ws : variant_ok v -> woff < length wbuf ->
+  wh_run v (wh_init wbuf woff) wops = Some ws -> wh_cur ws = [] -> escr (eq_st (wh_e ws)) = 0 ->
+  forall s (steps : list (list byte * list nat * list nat)),
+    idle_between v s ->
+    skipn (dcurr (hs_st s)) (hs_buf s) = wh_sent ws ++ contents (eq_q (wh_e ws)) ->
+    length steps = length (wh_done ws) ->
+    let s' := fold_left (fun s x => spaced_step v s (fst (fst x)) (snd (fst x)) (snd x)) steps s in
+    hs_msgs s' = hs_msgs s ++ wh_done ws /\ skipn (dcurr (hs_st s')) (hs_buf s') = [] /\ idle_between v s'.
+Proof.
+  intros Hv Ho Hrun Hc Hs s steps Hi Hun Hl.
+  pose proof (writer_history_stream v wbuf woff wops ws Hv Ho Hrun Hc Hs) as HW.
+  destruct (spaced_reader_delivers v _ _ HW s [] steps Hi ltac:(rewrite app_nil_r; exact Hun) Hl) as (H1 & H2 & H3).
+  cbn zeta. split; [exact H2|]. split; [exact H3|exact H1].
+Qed.
